@@ -24,6 +24,10 @@ import (
 var defaultErrorHandler = builtin(defaultErrorHandlerFn)
 
 func defaultErrorHandlerFn(intp *Interpreter) error {
+	if len(intp.errors) == 0 {
+		// the handler was run by the program itself, not for a pending error
+		return intp.e(eUnregistered, "error handler called without a pending error")
+	}
 	return intp.errors[len(intp.errors)-1]
 }
 
